@@ -228,7 +228,9 @@ impl<'a> Gen<'a> {
 
     fn generics(&self, r: &mut Rng) -> (String, String) {
         if r.chance(1, 2) {
-            return (String::new(), String::new());
+            // no parameter list; a where-clause is still possible
+            let w = if r.chance(1, 4) { *r.pick(&["where String: Clone", "where u8: Copy, Vec<u8>: Default"]) } else { "" };
+            return (String::new(), w.to_string());
         }
         let g = *r.pick(&["<T>", "<'a, T: Clone + 'a>", "<T, U = u8>", "<const N: usize>", "<'a, 'b: 'a, T: ?Sized>", "<T: Iterator<Item = u8>, const N: usize = 3>"]);
         let w = if r.chance(1, 2) { *r.pick(&["where T: Default", "where T: 'static + Send, Vec<T>: Clone", "where for<'x> &'x T: Copy"]) } else { "" };
